@@ -43,6 +43,31 @@ func roundTrip(v interface{}) (o rtOut) {
 	return
 }
 
+// classOnlyRoundTrip is the other documented way of calling: no name map on the encoding side
+// (lists then travel untyped) and only the classes registered on the decoding side (list and map
+// types come from the Go field types, through the decoder's conversion path).
+func classOnlyRoundTrip(v interface{}) (o rtOut) {
+	o.Stage = "extract"
+	pi, _ := Guard(func() {
+		tm, _ := hessian.ExtractTypeNameMap(v)
+		o.TypMap = map[string]reflect.Type{}
+		for k, t := range tm {
+			if t.Kind() == reflect.Struct {
+				o.TypMap[k] = t
+			}
+		}
+		o.Stage = "encode"
+		o.Wire, o.EncErr = hessian.ToBytes(v, nil)
+		if o.EncErr != nil {
+			return
+		}
+		o.Stage = "decode"
+		o.Dec, o.DecErr = hessian.ToObject(o.Wire, o.TypMap)
+	})
+	o.Panic = pi
+	return
+}
+
 func hexClip(b []byte) string {
 	if len(b) > 96 {
 		return fmt.Sprintf("%x...(%d bytes)", b[:96], len(b))
